@@ -16,18 +16,36 @@ import (
 // inventory ("recv.s_i", "Message.From", "[]byte", "recv.Hash()") plus the tokens RANDOM (system
 // randomness) and COUNTER (process-wide atomic counter).
 type depEngine struct {
-	fn   *ssa.Function
-	at   ssa.Instruction // effects must be able to execute before this instruction (nil: any)
-	memo map[ssa.Value]map[string]bool
-	busy map[ssa.Value]bool
-	subs map[ssa.Instruction]*depEngine
-	root *depEngine
+	fn    *ssa.Function
+	at    ssa.Instruction // effects must be able to execute before this instruction (nil: any)
+	memo  map[ssa.Value]map[string]bool
+	busy  map[ssa.Value]bool
+	subs  map[ssa.Instruction]*depEngine
+	root  *depEngine
+	loads map[string][]ssa.Value
 }
 
 func newDep(fn *ssa.Function, at ssa.Instruction) *depEngine {
 	d := &depEngine{fn: fn, at: at, memo: map[ssa.Value]map[string]bool{}, busy: map[ssa.Value]bool{}, subs: map[ssa.Instruction]*depEngine{}}
 	d.root = d
 	return d
+}
+
+// fieldLoads indexes the loads of struct fields by the access path of their address.
+func (d *depEngine) fieldLoads() map[string][]ssa.Value {
+	if d.loads != nil {
+		return d.loads
+	}
+	d.loads = map[string][]ssa.Value{}
+	allInstrs(d.fn, func(in ssa.Instruction) {
+		if u, ok := in.(*ssa.UnOp); ok && u.Op == token.MUL {
+			if _, isFA := u.X.(*ssa.FieldAddr); isFA {
+				k := path(u.X)
+				d.loads[k] = append(d.loads[k], u)
+			}
+		}
+	})
+	return d.loads
 }
 
 // sub: the engine that evaluates values as of instruction `at` (object state at a call site).
@@ -149,6 +167,17 @@ func (d *depEngine) deps(v ssa.Value, depth int) map[string]bool {
 	// loads: what was stored to the location
 	if u, ok := v.(*ssa.UnOp); ok && u.Op == token.MUL {
 		d.effects(u.X, out, depth)
+		// other loads of the same field path denote the same object: their in-place effects count too
+		if _, isFA := u.X.(*ssa.FieldAddr); isFA && isObjectType(v.Type()) {
+			key := path(u.X)
+			for _, other := range d.root.fieldLoads()[key] {
+				if other != v && !d.busy[other] {
+					d.busy[other] = true
+					d.effects(other, out, depth+1)
+					d.busy[other] = false
+				}
+			}
+		}
 	}
 	d.memo[v] = out
 	return out
